@@ -78,7 +78,10 @@ impl Txtpp {
 
         let progress = Progress::new(config.verbosity.clone());
 
-        let threadpool = Builder::new().num_threads(config.num_threads).build();
+        // the thread pool needs at least one worker: treat `0` as `1` instead of panicking
+        let threadpool = Builder::new()
+            .num_threads(config.num_threads.max(1))
+            .build();
         #[cfg(feature = "verif")]
         crate::verif::run_begin(config.num_threads);
         let (send, recv) = mpsc::channel();
